@@ -429,9 +429,16 @@ def main(run_fn, pid, level="model_checking"):
         run_fn(ctx)
         rc = ctx.finish()
     except Inconclusive as ex:
-        print("INCONCLUSIVE %s: %s" % (pid, ex), flush=True)
-        ctx.cleanup()
-        rc = 2
+        if ctx.violations:
+            # a violation established on the real code stands; a machinery problem that shows up afterwards is
+            # recorded, it does not turn exit 1 into exit 2 (and exit 2 never comes with a VIOLATION line)
+            ctx.note("machinery problem after a violation was established: %s" % str(ex)[:600])
+            print("NOTE %s: machinery problem after a violation was established: %s" % (pid, str(ex)[:300]), flush=True)
+            rc = ctx.finish()
+        else:
+            print("INCONCLUSIVE %s: %s" % (pid, ex), flush=True)
+            ctx.cleanup()
+            rc = 2
     except Exception:
         import traceback
         traceback.print_exc()
